@@ -5,15 +5,30 @@ package libp2p
 
 import (
 	"context"
+	"crypto/rand"
+	"fmt"
+	"io"
 	"sync"
 	"testing"
 	"time"
 
+	"github.com/libp2p/go-libp2p/core/crypto"
 	"github.com/libp2p/go-libp2p/core/network"
 	"github.com/libp2p/go-libp2p/core/peer"
+	"github.com/libp2p/go-libp2p/core/peerstore"
+	"github.com/libp2p/go-libp2p/core/protocol"
+	"github.com/libp2p/go-libp2p/core/sec"
 	"github.com/libp2p/go-libp2p/internal/verifh"
+	basichost "github.com/libp2p/go-libp2p/p2p/host/basic"
+	"github.com/libp2p/go-libp2p/p2p/host/eventbus"
+	"github.com/libp2p/go-libp2p/p2p/host/peerstore/pstoremem"
+	"github.com/libp2p/go-libp2p/p2p/muxer/yamux"
+	"github.com/libp2p/go-libp2p/p2p/net/swarm"
+	tptu "github.com/libp2p/go-libp2p/p2p/net/upgrader"
 	noise "github.com/libp2p/go-libp2p/p2p/security/noise"
 	libp2ptls "github.com/libp2p/go-libp2p/p2p/security/tls"
+	"github.com/libp2p/go-libp2p/p2p/transport/tcp"
+	ma "github.com/multiformats/go-multiaddr"
 )
 
 func TestVerifC02Host(t *testing.T) {
@@ -150,4 +165,191 @@ func TestVerifC02Host(t *testing.T) {
 		h1.Close()
 		h2.Close()
 	}
+	c02HostInline(t, out, r)
+}
+
+// c02PauseWriter holds back its Write number `at` (0-based) until `until()` has passed.
+type c02PauseWriter struct {
+	w     io.Writer
+	at, i int
+	until func() time.Time
+}
+
+func (p *c02PauseWriter) Write(b []byte) (int, error) {
+	if p.i == p.at {
+		if d := time.Until(p.until()); d > 0 {
+			time.Sleep(d)
+		}
+	}
+	p.i++
+	return p.w.Write(b)
+}
+
+// c02Swarm: a swarm with the TCP transport, Noise and yamux (what libp2p.New wires up,
+// without the services that are of no concern here).
+func c02Swarm(t *testing.T, listen bool) *swarm.Swarm {
+	priv, _, err := crypto.GenerateEd25519Key(rand.Reader)
+	if err != nil {
+		t.Fatal(err)
+	}
+	id, err := peer.IDFromPrivateKey(priv)
+	if err != nil {
+		t.Fatal(err)
+	}
+	ps, err := pstoremem.NewPeerstore()
+	if err != nil {
+		t.Fatal(err)
+	}
+	ps.AddPubKey(id, priv.GetPublic())
+	ps.AddPrivKey(id, priv)
+	sw, err := swarm.NewSwarm(id, ps, eventbus.NewBus())
+	if err != nil {
+		t.Fatal(err)
+	}
+	muxers := []tptu.StreamMuxer{{ID: yamux.ID, Muxer: yamux.DefaultTransport}}
+	st, err := noise.New(noise.ID, priv, muxers)
+	if err != nil {
+		t.Fatal(err)
+	}
+	up, err := tptu.New([]sec.SecureTransport{st}, muxers, nil, nil, nil)
+	if err != nil {
+		t.Fatal(err)
+	}
+	tr, err := tcp.NewTCPTransport(up, nil, nil)
+	if err != nil {
+		t.Fatal(err)
+	}
+	if err := sw.AddTransport(tr); err != nil {
+		t.Fatal(err)
+	}
+	if listen {
+		if err := sw.Listen(ma.StringCast("/ip4/127.0.0.1/tcp/0")); err != nil {
+			t.Fatal(err)
+		}
+		ps.AddAddrs(id, sw.ListenAddresses(), peerstore.PermanentAddrTTL)
+	}
+	return sw
+}
+
+// c02HostInline: streams whose listener-side protocol handler reads IN-LINE (in the
+// goroutine the host calls the handler in) and is still reading later than the host's
+// protocol negotiation timeout after the stream was opened, while the dialer keeps
+// writing.  The listener is a BasicHost with a short NegotiationTimeout (there is no
+// public libp2p option for it, hence basichost.NewHost over a TCP/Noise/yamux swarm).
+// The dialer writes the first piece, holds the second one back until
+// handler-entry + NegotiationTimeout + margin (handler entry is later than the moment the
+// negotiation deadline was armed), writes the rest and half-closes; the handler reads to
+// EOF without ever setting a deadline of its own.  Every byte must arrive: a Read error
+// before that is a monitor failure of kind 6.  The pause is a real one: the point is that
+// NO deadline may be left on the stream, so a longer pause can never raise a false alarm.
+func c02HostInline(t *testing.T, out *verifh.Out, r *verifh.Rand) {
+	const negTimeout = 2 * time.Second
+	const margin = 300 * time.Millisecond
+	nsess := 3
+	if verifh.Tier() == "thorough" {
+		nsess = 6
+	}
+	hl, err := basichost.NewHost(c02Swarm(t, true), &basichost.HostOpts{NegotiationTimeout: negTimeout})
+	if err != nil {
+		t.Fatal(err)
+	}
+	defer hl.Close()
+	hl.Start()
+	hd, err := basichost.NewHost(c02Swarm(t, false), nil)
+	if err != nil {
+		t.Fatal(err)
+	}
+	defer hd.Close()
+	hd.Start()
+	ctx, cancel := context.WithTimeout(context.Background(), 60*time.Second)
+	defer cancel()
+	if err := hd.Connect(ctx, peer.AddrInfo{ID: hl.ID(), Addrs: hl.Addrs()}); err != nil {
+		t.Fatal(err)
+	}
+	type sess struct {
+		wl, bl []int
+		base   int
+		xch    chan network.Stream
+		res    chan []int64
+	}
+	ss := make([]*sess, nsess)
+	for k := range ss {
+		// piece 0 before the pause, pieces 1.. after it; all non-empty
+		nw := 2 + r.Intn(3)
+		wl := make([]int, nw)
+		for j := range wl {
+			wl[j] = 1 + r.Intn(3000)
+			if r.Chance(1, 4) {
+				wl[j] = 1 + r.Intn(150000)
+			}
+		}
+		bl := []int{1 + r.Intn(8192)}
+		if r.Chance(1, 2) {
+			bl = append(bl, 1+r.Intn(64))
+		}
+		se := &sess{wl: wl, bl: bl, base: r.Intn(1 << 19), xch: make(chan network.Stream, 1), res: make(chan []int64, 1)}
+		ss[k] = se
+		cfg := int64(2000 + k)
+		hl.SetStreamHandler(protocol.ID(fmt.Sprintf("/verif/c02/inline/%d", k)), func(s network.Stream) {
+			entered := time.Now() // the negotiation deadline was armed before this point
+			var x network.Stream
+			select {
+			case x = <-se.xch:
+			case <-time.After(30 * time.Second):
+				s.Reset()
+				se.res <- nil
+				return
+			}
+			one := make([]byte, 1)
+			if _, err := io.ReadFull(s, one); err != nil || one[0] != 0xEE {
+				s.Reset()
+				se.res <- nil
+				return
+			}
+			// no deadline is ever set on s by the handler
+			w := &c02PauseWriter{w: x, at: 1, until: func() time.Time { return entered.Add(negTimeout + margin) }}
+			line := verifh.StreamCase(6, cfg, se.base, se.wl, se.bl, w, x.CloseWrite, s, 40*time.Second)
+			s.Close()
+			se.res <- line
+		})
+	}
+	var wg sync.WaitGroup
+	for k, se := range ss {
+		wg.Add(1)
+		go func(k int, se *sess) {
+			defer wg.Done()
+			x, err := hd.NewStream(ctx, hl.ID(), protocol.ID(fmt.Sprintf("/verif/c02/inline/%d", k)))
+			if err != nil {
+				t.Logf("c02 inline session %d: open: %v", k, err)
+				return
+			}
+			defer x.Close()
+			x.SetDeadline(time.Now().Add(50 * time.Second)) // dialer side only: bounds the harness
+			// the protocol is negotiated lazily: the first write makes the stream reach the handler
+			if _, err := x.Write([]byte{0xEE}); err != nil {
+				t.Logf("c02 inline session %d: marker: %v", k, err)
+				x.Reset()
+				return
+			}
+			se.xch <- x
+			var line []int64
+			select {
+			case line = <-se.res:
+			case <-time.After(45 * time.Second):
+				x.Reset() // unblocks a reader that is stuck
+				select {
+				case line = <-se.res:
+				case <-time.After(10 * time.Second):
+				}
+			}
+			if line == nil {
+				// negotiation itself did not complete in time (machine overloaded): no case
+				t.Logf("c02 inline session %d: handler not reached / no result", k)
+				return
+			}
+			out.Case(line)
+			out.Cover("host.inline_handler_reads_after_negotiation_timeout")
+		}(k, se)
+	}
+	wg.Wait()
 }
